@@ -8,15 +8,18 @@ NParts == atoi(IOEnv.VERIF_NPARTS)
 Mine(i) == i % NParts = Part
 
 Pairs == SetToSeq(RandomSubset(NParam, (1..NKinds) \X (1..NKinds)))
-Entries == T([i \in 1..Len(FixedModels) |-> [m |-> FixedModels[i], pa |-> 0, pb |-> 0, depth |-> Depth]])
-           \o T([i \in 1..Len(Pairs) |-> [m |-> ParamModel(Pairs[i][1], Pairs[i][2]), pa |-> Pairs[i][1], pb |-> Pairs[i][2], depth |-> ParamDepth]])
+EntriesOf(pairs) ==
+    T([i \in 1..Len(FixedModels) |-> [m |-> FixedModels[i], pa |-> 0, pb |-> 0, depth |-> Depth]])
+    \o T([i \in 1..Len(pairs) |-> [m |-> ParamModel(pairs[i][1], pairs[i][2]), pa |-> pairs[i][1], pb |-> pairs[i][2], depth |-> ParamDepth]])
 Raw(m) == [id |-> m.id, root |-> m.root, enums |-> m.enums, classes |-> m.classes]
-ModelsOut == T([i \in 1..Len(Entries) |-> [mi |-> i, pa |-> Entries[i].pa, pb |-> Entries[i].pb, raw |-> Raw(Entries[i].m)]])
+ModelOut(e, i) == [mi |-> i, pa |-> e.pa, pb |-> e.pb, raw |-> Raw(e.m)]
+ModelsOut(es) == T([i \in 1..Len(es) |-> ModelOut(es[i], i)])
 InstOut(e, i, xs) == T([q \in 1..Len(xs) |-> [mi |-> i, pa |-> e.pa, pb |-> e.pb, x |-> xs[q]]])
-InstancesOut == Flat(T([i \in 1..Len(Entries) |-> IF Mine(i) THEN InstOut(Entries[i], i, SetToSeq(Roots(Entries[i].m, Entries[i].depth, "base"))) ELSE <<>>]))
+InstancesOut(es) == Flat(T([i \in 1..Len(es) |-> IF Mine(i) THEN InstOut(es[i], i, SetToSeq(Roots(es[i].m, es[i].depth, "base"))) ELSE <<>>]))
 Out(what, path, v) == JsonSerialize(path, v) /\ PrintT(<<"@@PRINT@@ " \o what, Len(v)>>)
-ASSUME Out("models", IOEnv.VERIF_OUT_MODELS, ModelsOut)
-ASSUME Out("instances", IOEnv.VERIF_OUT_INSTANCES, InstancesOut)
+\* (the entries are evaluated once and threaded through: a second evaluation would draw another random sample)
+Emit(es) == Out("models", IOEnv.VERIF_OUT_MODELS, ModelsOut(es)) /\ Out("instances", IOEnv.VERIF_OUT_INSTANCES, InstancesOut(es))
+ASSUME Emit(EntriesOf(Pairs))
 VARIABLE dummy
 Init == dummy = 0
 Next == UNCHANGED dummy
